@@ -13,7 +13,7 @@ RULE = ("operation histories over the alphabet platform(ios|nxos), port_nr, prot
         "group(by) / ungroup, sort, reverse, insert(i, ACE), pop(i), copy, export/import (data with identifiers), "
         "re-parse, delete_shadow, ungroup_ports: random histories of length 1..8 from generated extended ACLs "
         "(remarks, heading remarks, related ACEs so that shadows exist, multi-port eq, names/numbers), and ALL "
-        "histories up to length 2 (quick) / 3 (thorough) over a 14-operation alphabet from three seed ACLs. After every "
+        "histories up to length 2 over a 14-operation alphabet (thorough: also length 3 over 9 operations) from three seed ACLs. After every "
         "step: model (coq/model/Ops.v) vs implementation on text, flags, grouping, identifiers; on the implementation "
         "alone: the text parses back to itself, the rule list read by the independent reader equals the reference "
         "prediction, and the same operation applied to a freshly built equal object gives the same text. "
@@ -274,16 +274,19 @@ def known_exception(op, ex, a):
 def correspond(ctx):
     ca = core.impl_module()
     rnd = random.Random(ctx.seed)
-    n = 220 if ctx.tier == "quick" else 5000
+    n = 220 if ctx.tier == "quick" else 1500
     specs = [ops.gen_history(rnd, ca, ops.ALL_OPS, rnd.randint(1, 8)) for _ in range(n)]
-    # all histories up to a bounded length from the seed ACLs
-    depth = 2 if ctx.tier == "quick" else 3
+    # all histories up to a bounded length from the seed ACLs: length <= 2 over the 14 operations (quick: half of
+    # the second layer), thorough additionally length 3 over a 9-operation sub-alphabet
     exh = 0
+    sub9 = [o for o in EXH_OPS if o[0] in ("platform", "port_nr", "resequence", "group", "ungroup", "sort", "copy",
+                                             "delete_shadow", "ungroup_ports")][:9]
+    layers = [(1, EXH_OPS), (2, EXH_OPS)] + ([(3, sub9)] if ctx.tier != "quick" else [])
     for seed_acl in SEED_ACLS:
-        for d in range(1, depth + 1):
-            for combo in itertools.product(EXH_OPS, repeat=d):
-                if d == depth and ctx.tier == "quick" and rnd.random() < 0.5:
-                    continue            # quick: half of the longest layer (the thorough tier takes all)
+        for d, alphabet in layers:
+            for combo in itertools.product(alphabet, repeat=d):
+                if d == 2 and ctx.tier == "quick" and rnd.random() < 0.5:
+                    continue            # quick: half of the second layer (the thorough tier takes all)
                 spec = dict(seed_acl, ops=[list(o) for o in combo])
                 if not _sort_modelled(ca, spec):
                     continue            # sort() with equal sequence numbers is outside the model (DESIGN 6 C17)
